@@ -160,7 +160,7 @@ func runC03(c *Check, rng *rand.Rand) {
 			c03env(c, rand.New(rand.NewSource(seed)), timeout, scen, mode)
 		}()
 	}
-	run(0, []string{"P", "O", "D", "K", "O", "P"}, c.Seed*10+1, "")
+	run(0, []string{"P", "O", "K", "D", "K", "O", "P", "K"}, c.Seed*10+1, "")
 	run(300, []string{"T", "P", "T"}, c.Seed*10+2, "")
 	run(0, []string{"K", "D", "K", "P"}, c.Seed*10+4, "hs")
 	if c.Thorough() {
@@ -212,7 +212,7 @@ func c03env(c *Check, rng *rand.Rand, timeout int, scen []string, mode string) {
 		}
 		return slotOf(down, rng)
 	}
-	episodes := c.Pick(14, 300)
+	episodes := c.Pick(16, 300)
 	for ep := 0; ep < episodes; ep++ {
 		if !env.P.Alive() {
 			c.Violate(Violation{Class: "proxy-died", Shape: "chaos", Detail: env.P.PanicLine(), Witness: env.P.OutputTail(3000)})
@@ -227,6 +227,7 @@ func c03env(c *Check, rng *rand.Rand, timeout int, scen []string, mode string) {
 		for i := range clients {
 			clients[i] = newC03client(env)
 		}
+		var pairNodes []*Node // nodes on which two gated fragments of one request wait
 		var gates []*Gate
 		gate := func(key string) {
 			g := NewGate()
@@ -323,9 +324,22 @@ func c03env(c *Check, rng *rand.Rand, timeout int, scen []string, mode string) {
 			for _, a := range clients {
 				for i := 0; i < 1+rng.Intn(5); i++ {
 					if rng.Intn(3) == 0 {
-						keys := a.mget(goodSlot(), goodSlot(), goodSlot())
+						// two of the three fragments wait on the same node (different slots), so
+						// that one lost connection carries two fragments of one request
+						s1 := goodSlot()
+						s2 := goodSlot()
+						for tries := 0; tries < 200 && (s2 == s1 || env.T.Owner(s2) != env.T.Owner(s1)); tries++ {
+							s2 = goodSlot()
+						}
+						keys := a.mget(s1, s2, goodSlot())
 						track(keys...)
-						gate(keys[rng.Intn(3)])
+						if rng.Intn(2) == 0 {
+							gate(keys[0])
+							gate(keys[1])
+							pairNodes = append(pairNodes, env.T.Owner(s1).Node)
+						} else {
+							gate(keys[rng.Intn(3)])
+						}
 					} else {
 						k := a.get(goodSlot())
 						track(k)
@@ -340,6 +354,10 @@ func c03env(c *Check, rng *rand.Rand, timeout int, scen []string, mode string) {
 			}
 			env.Barrier()
 			victim := env.Cl.Nodes[rng.Intn(4)]
+			if len(pairNodes) > 0 && rng.Intn(4) != 0 {
+				victim = pairNodes[rng.Intn(len(pairNodes))]
+			}
+			pairNodes = nil
 			victim.KillConns()
 			if hs {
 				// the replicas' connections as well (node 4 and its replica aside)
